@@ -412,23 +412,32 @@ def execute(case):
 
     saved_temperature = [None]
     seen_replaced = [0]
-    def adopt_reported_options(why):
-        """a load is not a sampling-option call, but a library that persists the options in the state_dict changes
-        them legitimately on load: if every quantizer reports (hard_softmax, gumbel_softmax, disable_sampling) and all
-        agree, the reference adopts what the model reports where it differs from the script's calls - the samplers are
-        then held against that. On the pinned tree a load never changes them."""
-        if method != 'mps' or opts is None:
-            return
-        rep_ = set()
-        for q in rep.model.modules():
+    def reported_options(model):
+        out = {}
+        for n_, q in model.named_modules():
             if isinstance(q, MPSBaseQtz):
                 try:
-                    rep_.add((bool(q.hard_softmax), bool(q.gumbel_softmax), bool(q.disable_sampling)))
+                    out[n_] = (bool(q.hard_softmax), bool(q.gumbel_softmax), bool(q.disable_sampling))
                 except AttributeError:
-                    return
-        if len(rep_) != 1:
+                    return None
+        return out
+
+    def adopt_reported_options(why, before):
+        """a load is not a sampling-option call, but a library that persists the options in the state_dict changes
+        them legitimately on load. `before`: what every quantizer reported (hard_softmax, gumbel_softmax,
+        disable_sampling) right before the load. If the load changed what some quantizers report and all of those now
+        agree, the reference adopts the reported values - the samplers are then held against what the model itself
+        says. On the pinned tree a load never changes them. (Quantizers the model-level option calls never reach -
+        the placeholder in front of the input quantizer - report their construction defaults throughout.)"""
+        if method != 'mps' or opts is None or before is None:
             return
-        h_, g_, d_ = next(iter(rep_))
+        after = reported_options(rep.model)
+        if after is None:
+            return
+        changed = {after[n_] for n_ in after if n_ in before and after[n_] != before[n_]}
+        if len(changed) != 1:
+            return
+        h_, g_, d_ = next(iter(changed))
         if (h_, g_, d_) != (opts['hard'], opts['gumbel'], opts['disable_sampling']):
             bump('options_adopted_from_what_the_model_reports_after_' + why)
             opts['hard'], opts['gumbel'], opts['disable_sampling'] = h_, g_, d_
@@ -463,7 +472,7 @@ def execute(case):
                 break
             scan(rep.model)
             rep.perturb_skip = set(ref.frozen_t)
-            adopt_reported_options('restart')
+            adopt_reported_options('restart', reported_options(rep.ghost) if rep.ghost is not None else None)
             check_frozen_set('restart')
             check_static('restart', f'after op {idx} crash_restart')
             events.append(f'{idx} crash_restart state={abstract_state()}')
@@ -502,6 +511,7 @@ def execute(case):
             last_control = lab
             control_kinds.add(k if k not in ('train_nas_only', 'train_net_only', 'train_net_and_nas') else 'train_group')
             bump('control_' + lab.split(':')[0])
+        reported_before = reported_options(rep.model) if (k == 'load_ckpt' and method == 'mps') else None
         try:
             obs = W.apply_op(rep, op, idx, run_seed)
         except Exception as e:
@@ -511,7 +521,7 @@ def execute(case):
         if obs.get('aborted'):
             bump('fault_abort_forward')
         if k == 'load_ckpt':
-            adopt_reported_options('load')
+            adopt_reported_options('load', reported_before)
         if getattr(rep, 'objects_replaced', 0) != seen_replaced[0]:
             seen_replaced[0] = rep.objects_replaced
             scan(rep.model)                      # deepcopy / load_state_dict(assign=True): new objects, same model
